@@ -87,7 +87,8 @@ prop("C03",
      [dict(name="C03", src="C03.cpp", deadline=dict(quick=90, thorough=480))],
      SCHED_RULE + " Programs: 1-2 (3 thorough) writers x 1-2 modify calls, 1-2 readers x 1-3 acquisitions through "
      "each of the four shared-acquisition forms, with and without overlapping handles, commuting and non-commuting "
-     "functors.",
+     "functors; functors that throw half-way on their first / second application; modify() called from a destructor "
+     "while another exception is propagating (std::uncaught_exceptions() > 0).",
      "Real lr_guarded<Pair> (two-word payload with scheduling points inside functor, copy and reads). Oracles: "
      "ghost access windows per copy (functor vs reader), torn pair, value stable while a handle is held, freshness "
      "(>= modifies returned before the acquisition began, <= modifies invoked when it returned), per-reader "
@@ -105,7 +106,8 @@ prop("C03",
 prop("C04",
      [dict(name="C04", src="C04.cpp", deadline=dict(quick=90, thorough=480))],
      SCHED_RULE + " Programs: 1-2 (3 thorough) writers with every sequence of <=2 operations over {commit, cancel, "
-     "move-construct + commit}, 0-2 readers taking 1-2 snapshots through each shared-acquisition form, kept across "
+     "move-construct + commit, move-construct + cancel, user code throws while holding the handle (released by stack "
+     "unwinding)}, 0-2 readers taking 1-2 snapshots through each shared-acquisition form, kept across "
      "later commits or dropped.",
      "Real cow_guarded<Pair>; shared_ptr reference counts are atomics and therefore scheduling points. Oracles: "
      "snapshot torn-pair / unchanged at every re-read while held (payload destructor poisons, arena quarantines "
@@ -127,7 +129,8 @@ prop("C05",
            no_until_exhaustive=True)],
      SCHED_RULE + " Programs: list prefilled with 2-3 elements; 1-2 traversers (read or write handle) pausing on "
      "each element, an eraser (1st / 2nd / last / all elements, double erase, erase+push), 0-2 short-lived handles "
-     "whose release triggers reclamation, second erasers/pushers; weak-CAS failures and stale reads of the relaxed "
+     "whose release triggers reclamation, second erasers/pushers; programs starting from an EMPTY list in which a "
+     "reader's handle is first used before anything was inserted and stays in use across another thread's push; weak-CAS failures and stale reads of the relaxed "
      "log-head load are deviations of the same budget. Second harness: the same programs over an allocator whose "
      "n-th allocation fails (every n, one failure per run; the failed operation is caught and the handle reused), "
      "explored with up to 1 (thorough 2) further deviations.",
@@ -171,7 +174,9 @@ prop("C13",
      "Sequential part: every well-formed history up to depth 6 (7 thorough) over {lock_read, lock_write, first "
      "access (begin), release, push_front, push_back, ++it, erase(it)} on an empty and on a 2-element list, ending "
      "with release and list destruction. Concurrent part: " + SCHED_RULE + " Programs: pausing traversers, erasers, "
-     "pushers and 1-3 short-lived handles (reclamation by concurrent releases).",
+     "pushers and 1-3 short-lived handles (reclamation by concurrent releases), two erasers of the same element, "
+     "readers whose handle is first used on the empty list. In every program each allocation of a client operation "
+     "and each element construction may fail (fault enumeration, one failure per run; thorough: two).",
      "Real rcu_list<Tracked, std::mutex, CountingAlloc<Tracked>> and rcu_list<element holding a heap-allocated "
      "std::string> (second harness; quick tier: the first 3000 histories): element type with non-trivial destructor, "
      "self-pointer canary and instance counter; allocator that records allocate/deallocate/construct/destroy per "
@@ -212,7 +217,8 @@ prop("C01",
      SCHED_RULE + " Instances: guarded, guarded_opt(on) x {mutex, timed_mutex}; shared_guarded, "
      "shared_guarded_opt(on), ordered_guarded x {mutex, timed_mutex, shared_mutex, shared_timed_mutex}. Alphabet: "
      "lock+RMW, lock+RMW+unlock(), try_lock, try_lock_for, try_lock_until, load, store, operator=, modify, "
-     "modify(returning) as available for the mutex type. All programs with 2 threads x 1 op, 3 threads x 1 op, "
+     "modify(returning), operator T(), and handle re-use (h = try_lock(); if (!h) h = lock();) as available for the "
+     "mutex type. All programs with 2 threads x 1 op, 3 threads x 1 op, "
      "2+1 ops (thorough: 2+2 ops, 4 threads).",
      "Oracles: ghost access windows on the wrapped object (payload copy/assign/compare have scheduling points "
      "inside, so load/store/operator= have observable windows), torn pair, lock model says the handle's thread "
@@ -232,7 +238,8 @@ prop("C02",
      SCHED_RULE + " Instances: shared_guarded, shared_guarded_opt(on), ordered_guarded, deferred_guarded x the four "
      "mutex types. Alphabet: writer ops (lock+RMW, try_lock, try_lock_for, store, modify, modify_detach, "
      "modify_async) and reader ops (lock_shared, try_lock_shared, try_lock_shared_for/until, const lock(), read, "
-     "read(returning), load); programs with at least one reader op; plus rendezvous programs (two readers must "
+     "read(returning), load, and a shared handle re-used after a failed try_lock_shared); programs with at least "
+     "one reader op; plus rendezvous programs (two readers must "
      "meet inside their shared sections) for shared-capable mutex types.",
      "Oracles: ghost windows (READ||WRITE and WRITE||WRITE forbidden, READ||READ allowed and required to be "
      "observed at least once: cover flag), torn pair, value stable under a shared handle, linearizable history, "
@@ -411,7 +418,8 @@ prop("C20",
      "calls may_throw(site); for each program the fault-free exploration first measures the number of calls per "
      "site over all schedules, then EVERY plan 'the n-th call of site s throws' is explored (thorough: every pair "
      "of such faults), each with all interleavings up to the deviation bound. Programs: lr_guarded writers with "
-     "throwing functors against readers; guarded / guarded_opt / ordered_guarded / atomic_guarded operation pairs "
+     "throwing functors against readers, called normally and from a destructor during stack unwinding; cow_guarded "
+     "write handles released by unwinding after user code threw; guarded / guarded_opt / ordered_guarded / atomic_guarded operation pairs "
      "with throwing copy/assign/compare/functor; cow_guarded writers with a throwing copy constructor; "
      "deferred_guarded submitters (direct and queued path, detach and async) with throwing functors against "
      "readers; DelayedDestructor with a throwing callback; SearchableObjectHolder with throwing predicates.",
